@@ -151,7 +151,9 @@ C12 == \A p \in Pairs : LET a == Ob(p[1])  b == Ob(p[2]) IN
 
 (* C13  bad lengths are rejected without side effects; nothing panics *)
 ErrIff == last.pres \in {"ok", "err", "errpad"} => ((last.res = "ok") <=> (last.pres = "ok"))
-NoSideEffect == last.res # "ok" => last.keep
+(* "rejected" = a contract violation listed by the property; a padding error after a well-formed    *)
+(* length is not one (the data has to be decrypted before the padding can be judged)              *)
+NoSideEffect == (last.pres = "err" /\ last.res # "ok") => last.keep
 NoPanic == last.res # "panic"
 C13 == ErrIff /\ NoSideEffect /\ NoPanic
 
